@@ -237,17 +237,19 @@ int main(int argc, char **argv) {
             HP o = k->make(g, 0);
             std::string s1 = to_stream_bytes([&](std::ostream &os) { k->exp_s(os, *o); });
             uint64_t bad = 0; int first = -1;
+            const bool fresh_reals = k->name == "LweParams" || k->name == "TLweParams";     // parameter objects are cheap: a new one, with new real-valued fields, every time
             for (int it = 0; it < count; it++) {
                 VH_OP("longrun:%s:call=%d", k->name.c_str(), it);
+                if (fresh_reals && it) { o = k->make(g, 0); s1 = to_stream_bytes([&](std::ostream &os) { k->exp_s(os, *o); }); }
                 int tr = it & 1; HP im;
                 if (tr == T_STREAM) { std::istringstream is(s1, std::ios::binary); im = k->imp_s(is, *o); }
                 else { FILE *f = fmemopen((void *) s1.data(), s1.size(), "rb"); im = k->imp_f(f, *o); fclose(f); }
                 bool ok = im->obj && k->cmp(*o, *im).empty();
-                if (ok && (it % 16) == 0) { std::string s3 = tr ? to_file_bytes([&](FILE *f) { k->exp_f(f, *im); }) : to_stream_bytes([&](std::ostream &os) { k->exp_s(os, *im); }); ok = s3 == s1; }
+                if (ok && ((it % 16) == 0 || fresh_reals)) { std::string s3 = tr ? to_file_bytes([&](FILE *f) { k->exp_f(f, *im); }) : to_stream_bytes([&](std::ostream &os) { k->exp_s(os, *im); }); ok = s3 == s1; }
                 out.evaluations++;
                 if (!ok) { bad++; if (first < 0) first = it; }
             }
-            if (bad) out.viol("io:" + k->name + ":round-trip-fails-after-many-calls", J().s("kind", k->name).i("first_failing_call", first).u("failing_calls", bad).i("calls", count));
+            if (bad) out.viol(fresh_reals ? "io:real-parameter-not-preserved:" + k->name + "(many random values)" : "io:" + k->name + ":round-trip-fails-after-many-calls", J().s("kind", k->name).i("first_failing_call", first).u("failing_calls", bad).i("calls", count));
             char cell[96]; snprintf(cell, sizeof cell, "%s:longrun:%d-round-trips", k->name.c_str(), count); out.cell(cell, count);
         }
         out.sample(J().s("mode", "longrun").i("round_trips_per_kind", count));
